@@ -165,14 +165,14 @@ def probes():
     out = []
 
     def add(tag, role, shape, src, known=None, mods=None, regrey=False, holders=None, why_no_premise=None, max_holders=1,
-            holder_chain=None, pinned=False, seq=None, need_unrooted_holder=None):
+            holder_chain=None, pinned=False, seq=None, need_unrooted_holder=None, all_tags=False):
         # the body runs inside a function: its variables are locals (fiber stack), not module attributes, so the module
         # (which every closure and class of the program reaches) does not become a holder of everything
         body = src if seq else "fn body_() { %s } body_();" % src
         out.append({"tag": tag, "role": role, "shape": shape, "src": PRELUDE + body, "mods": mods or {},
                     "known": known, "regrey": regrey, "holders": holders, "why_no_premise": why_no_premise,
                     "max_holders": max_holders, "holder_chain": holder_chain, "pinned": pinned, "seq": seq,
-                    "need_unrooted_holder": need_unrooted_holder})
+                    "need_unrooted_holder": need_unrooted_holder, "all_tags": all_tags})
 
     UP = ["ObjUpvalue"]
     FB = ["ObjFiber"]
@@ -273,6 +273,46 @@ def probes():
                     sname, code, seq=("keep", "keep", "%s %s" % (window(), pr("keep()"))),
                     holders=UP if sname not in ("inst",) else None,
                     why_no_premise="c01seq snippets run in main: an instance payload lies on one cycle with main's globals")
+        # "value held only by an (open, then closed) upvalue whose stack slot has been discarded": a closure captures a fresh
+        # payload declared in a block / loop body / try block, escapes into a vec, and the scope is left by every kind of exit;
+        # the slot is then reused (`filler`), a collection runs, the payload is read through the closure.  If the exit does
+        # not close the upvalue it keeps pointing ABOVE the stack top, where Stack::mark does not look.
+        D = "var a_ = 0; var b_ = 0; var c_ = 0; var payload = %s; hs.push(|| payload);" % X
+        EXITS = [
+            ("normal end of a block", "{ %s }" % D),
+            ("end of a for-loop body, three passes", "for i in [1, 2, 3] { %s }" % D),
+            ("end of a while-loop body", "var n = 0; while n < 2 { %s n += 1; }" % D),
+            ("break out of a for loop", "for i in [1, 2, 3] { %s if i == 2 { break; } }" % D),
+            ("break out of a nested block in a while loop", "var n = 0; while true { n += 1; { %s if n == 2 { break; } } }" % D),
+            ("continue in a for loop", "for i in [1, 2, 3] { %s if i < 3 { continue; } var z_ = [i]; }" % D),
+            ("continue in a while loop", "var n = 0; while n < 3 { n += 1; %s if n < 3 { continue; } var z_ = [n]; }" % D),
+            ("return from a nested block", "fn f(hs) { { { %s return 1; } } } f(hs);" % D),
+            ("return from a loop body", "fn f(hs) { for i in [1, 2, 3] { %s if i == 2 { return i; } } return 0; } f(hs);" % D),
+            ("return inside try with finally", 'fn f(hs) { try { %s return 1; } finally { var note = ["cleanup"]; hs.len(); } } f(hs);' % D),
+            ("return inside try with finally inside a loop", 'fn f(hs) { for i in [1, 2] { try { %s if i == 2 { return 1; } } finally { var note = [i]; } } return 0; } f(hs);' % D),
+            ("return inside try with catch", 'fn f(hs) { try { %s return 1; } catch e { return 2; } } f(hs);' % D),
+            ("end of a try block with finally", 'try { %s } finally { var note = ["cleanup"]; }' % D),
+            ("exception thrown in the same frame", 'try { %s throw Error.new(1); } catch e { var seen = [1]; }' % D),
+            ("exception thrown one frame deeper", 'fn t1() { throw Error.new(1); } try { %s t1(); } catch e { var seen = [1]; }' % D),
+            ("exception thrown two frames deeper", 'fn t1() { throw Error.new(1); } fn t2() { var l = [2]; t1(); } try { %s t2(); } catch e { var seen = [1]; }' % D),
+            ("exception unwinding the capturing frame itself (one frame)", 'fn t1(hs) { %s throw Error.new(1); } try { t1(hs); } catch e { var seen = [1]; }' % D),
+            ("exception unwinding two capturing frames", 'fn t1(hs) { %s throw Error.new(1); } fn t2(hs) { %s t1(hs); } try { t2(hs); } catch e { var seen = [1]; }' % (D, D.replace("payload", "payload2").replace("a_", "d_"))),
+            ("exception through a finally (rethrown), caught outside", 'fn t1(hs) { try { %s throw Error.new(1); } finally { hs.len(); } } try { t1(hs); } catch e { var seen = [1]; }' % D),
+            ("native error (index out of range) unwinding the block", 'try { %s [1][5]; } catch e { var seen = [1]; }' % D),
+            ("fiber yields and is abandoned", 'var fb = Fiber.new(|| { %s Fiber.yield(1); return 0; }); fb.call(); fb = nil;' % D),
+            ("fiber yields inside a loop body, resumed past the scope, then finishes", 'var fb = Fiber.new(|| { for i in [1, 2] { %s Fiber.yield(i); } return 0; }); fb.call(); fb.call(); fb.call();' % D),
+            ("fiber body returns (fiber finished)", 'var fb = Fiber.new(|| { %s return 0; }); fb.call();' % D),
+            ("exception caught inside a fiber that then yields (an error leaving a fiber ends the run: c01seq family)",
+             'var fb = Fiber.new(|| { try { %s throw Error.new(1); } catch e { var seen = [1]; } Fiber.yield(1); return 0; }); fb.call();' % D),
+        ]
+        for ename, code in EXITS:
+            add("scope", "value held only by an upvalue whose slot was discarded: %s" % ename, sname,
+                "fn collect() { var hs = []; %s var filler = [0, [1], (2, 3)]; var filler2 = [4]; return hs; } var hs = collect(); var noise = [7, [8], 9]; %s "
+                "var k_ = 0; while k_ < hs.len() { %s k_ += 1; } print(hs.len());" % (code, window(), pr("hs[k_]()")),
+                # abandoned fiber: the upvalue stays open, and upvalue -> owner fiber -> frame closure -> captured `hs` -> closure -> upvalue
+                # is a cycle, all of whose members the closure-based holder test names; range payload: every pass gets the SAME cached range object
+                holders=["ObjUpvalue", "ObjFiber", "ObjClosure", "ObjVec"] if "abandoned" in ename else UP, all_tags=True,
+                max_holders=8 if "abandoned" in ename else (3 if sname == "range" else 1))
         # fibers (fibers that reference each other through stack and caller form a cycle: the closure-based holder
         # test then names every fiber of the cycle, hence max_holders=3 for those)
         add("fiber", "suspended fiber's stack", sname,
@@ -546,7 +586,7 @@ def premise(p, rec):
     box has num_roots = 0 and every reachable direct holder is of an expected type"""
     if not p.get("holders") and not p.get("pinned"):
         return None, p.get("why_no_premise") or "no tagged object"
-    ps = [x for x in rec.tagged("P") if x and x[0] == "0"]
+    ps = [x for x in rec.tagged("P") if x and (x[0] == "0" or p.get("all_tags"))]
     if not ps:
         return False, "no premise record (the program did not reach its @@PREMISE point)"
     if p.get("pinned"):
@@ -604,6 +644,13 @@ def judge(ctx, p, ref, runs, fixed_state):
             why = "panic: %s" % o["detail"][:200]
         elif (o["res"], o["out"], o["msgs"]) != (ref["res"], ref["out"], ref["msgs"]):
             why = "output differs from the never-collect run"
+        else:
+            inv = rec.tagged("I")
+            if inv and len(inv[-1]) >= 2 and int(inv[-1][1]) > 0:
+                x = inv[-1]
+                why = ("invariant broken at %s of %s instruction boundaries: an open upvalue of the running fiber points at or above the stack top "
+                       "(first: pc %s opcode %s slot %s stack length %s): the captured value is no longer traced" % (
+                           x[1], x[0], x[2] if len(x) > 2 else "?", x[3] if len(x) > 3 else "?", x[4] if len(x) > 4 else "?", x[5] if len(x) > 5 else "?"))
         if why and not bad:
             bad = (cfg, why, o)
     if not bad:
@@ -638,7 +685,8 @@ def run_probes(ctx, plist, label):
     rel = ctx.harness("release")
     t0 = time.time()
     l_ref = [line_of(p, "gc=never,stats=1") for p in plist]
-    l_dbg = [line_of(p, "stats=1") for p in plist]
+    # debug run also evaluates, at every instruction boundary (hook H4), "no open upvalue at or above the stack top"
+    l_dbg = [line_of(p, "stats=1,inv=1") for p in plist]
     l_rel = [line_of(p, "gc=always,stats=1") for p in plist]
     refs = yvlib.run_harness(rel, l_ref, quarantine=True, case_timeout_ms=CASE_TIMEOUT_MS)
     r_dbg = yvlib.run_harness(dbg, l_dbg, quarantine=True, case_timeout_ms=CASE_TIMEOUT_MS, recycle=40)
@@ -651,6 +699,13 @@ def run_probes(ctx, plist, label):
     failed = 0
     bad_ref = 0
     prem = ctx.cov.setdefault("premise", {"claimed": 0, "verified": 0, "unverified": [], "not_claimed": {}})
+    invc = ctx.cov.setdefault("stack_top_invariant", {"programs": 0, "instruction_boundaries": 0, "violating_programs": 0})
+    for r1 in r_dbg:
+        i_ = r1.tagged("I")
+        if i_:
+            invc["programs"] += 1
+            invc["instruction_boundaries"] += int(i_[-1][0])
+            invc["violating_programs"] += 1 if int(i_[-1][1]) > 0 else 0
     for p, r0, r1, r2 in zip(plist, refs, r_dbg, r_rel):
         pv1, why1 = premise(p, r1)
         pv2, why2 = premise(p, r2)
